@@ -1429,11 +1429,11 @@ class TableStream(Stream):
 # ----------------------------------------------------------------------------- production wiring: request bursts
 PIPE_HEADER = """From Verif Require Import gen.DataSourcing model.DataSourcing.
 (* (capacity of the request receiver the real _DataPipeline created, [(burst size, indices of the requests of the
-   burst that were served, in order)]): the capacity is the translated _REQUEST_RECV_BUFFER_SIZE and every burst,
+   burst that were served, in order)]): the capacity is the translated `limit=` keyword and every burst,
    issued back to back before the actor ran, went through a drop-oldest FIFO of that capacity *)
 Definition check (c : Z * list (nat * list nat)) : bool :=
   let '(cap, bursts) := c in
-  (cap =? request_recv_buffer_size) &&
+  (cap =? data_sourcing_request_limit) &&
   forallb (fun b => list_eqb Nat.eqb (req_burst (Z.to_nat cap) [] (seq 0 (fst b))) (snd b)) bursts.
 """
 
